@@ -474,9 +474,24 @@ func faultTable() map[string]faultFn {
 		},
 		"undefined-tag": func(t *ftree) *injected {
 			m, _ := t.method()
-			tg := &model.RDir{Kind: "Tags", Keyword: "Tags", Params: []string{"@notag"}}
+			name := "@notag"
+			if t.r.Intn(2) == 0 {
+				// a name that is not declared but exists as the path tag of an interaction written before (or after) this one
+				name = "@pathtagonly"
+				pm := &model.RDir{Kind: "GET", Keyword: "GET", Params: []string{"/pathtagonly/x"}, HasPath: true, Origin: "added"}
+				pm.Children = append(pm.Children, &model.RDir{Kind: "HTTP-response-code", Keyword: "200", Params: []string{"any"}})
+				if t.r.Intn(3) != 0 {
+					// right after JSIGHT: before every other interaction
+					out := append([]*model.RDir(nil), t.roots[:1]...)
+					out = append(out, pm)
+					t.roots = append(out, t.roots[1:]...)
+				} else {
+					t.roots = append(t.roots, pm)
+				}
+			}
+			tg := &model.RDir{Kind: "Tags", Keyword: "Tags", Params: []string{name}}
 			if old := child(m, "Tags"); old != nil {
-				old.Params = append(old.Params, "@notag")
+				old.Params = append(old.Params, name)
 				tg = old
 			} else {
 				m.Children = append([]*model.RDir{tg}, m.Children...)
